@@ -13,7 +13,7 @@ open Pcore.Lat
 #print axioms C04_common_unit
 #print axioms C04_common_accepts_left
 #print axioms C04_common_tail
-#print axioms C04_generalize_fails_float_inf
+#print axioms C04_generalize_float_inf_repaired
 #print axioms C04_accepts_complete_fails_scalar
 #print axioms C04_accepts_complete_fails_object
 #print axioms C04_dtype_full_fails_emptykey
